@@ -104,7 +104,7 @@ def run(ctx, res):
     have_crc = {}
     for f, cg in fmt.frame_sites(ctx):
         res.saw(f)
-        ev = APE.run(prog, cg, f, bound=1)
+        ev = APE.run(prog, cg, f, bound=APE.BOUND)
         seen = set()
         for p in ev.paths:
             ver = None
